@@ -38,11 +38,13 @@ ST_DEVS = {"offset_from_length": ("InvOffsets", dict(_TINY, np_=1, maxops=3, max
 AS_INVS = ["InvRange", "InvRoundRobin", "InvSticky", "InvKeys"]
 AS_DEVS = {"range_drops_remainder": "InvRange", "sticky_keeps_departed": "InvSticky"}
 
-# known findings: key <- (family, clause) when the failure is exactly what the deviation predicts
-KNOWN_KEYS = {"mq": "mq_delivery_event_stamped_pre_latency", "topic": "topic_delivery_event_stamped_pre_latency"}
-DEV_CLAUSES = {"mq": {"stale_now_after_yield": {"delivery_not_received"}},
-               "topic": {"stale_now_after_yield": {"topic_message_not_received"}},
-               "stream": {}}
+# Violation keys are computed from what fails: the trace specs report the signature of the two confirmed
+# defects (a delivery event dropped by the engine because it carries the pre-latency instant) as a clause of
+# its own; every other failing clause gets the key "<family>:<clause>".
+SIGNATURE_KEYS = {("mq", "delivery_discarded_stale_stamp"): "mq_delivery_event_stamped_pre_latency",
+                  ("topic", "topic_delivery_discarded_stale_stamp"): "topic_delivery_event_stamped_pre_latency"}
+# deviations of the implementation-shaped models that describe the code as it is (open known findings)
+MODEL_DEVS = {"mq": {"stale_now_after_yield"}, "topic": {"stale_now_after_yield"}, "stream": set()}
 TRACE_MODULE = {"mq": "MQueueTrace.tla", "topic": "TopicTrace.tla", "stream": "StreamTrace.tla"}
 DRIVER = {"mq": MQ, "topic": TP, "stream": ST}
 TICKS = (10**6, 10**9, 10**3)
@@ -115,8 +117,11 @@ def jobs_for(tier):
               Job("mq clean lat0 cap nodlq", "MQueueMC.tla",
                   mq_consts(maxmsg=3, maxops=8, maxt=2, lat=0, maxr=1, cap=2, dlq=False), MQ_INVS, "clean",
                   workers=big, timeout=3000),
-              Job("mq clean lat2 rdel2 maxr0", "MQueueMC.tla",
-                  mq_consts(maxops=7, maxt=4, lat=2, rdel=2, maxr=0), MQ_INVS, "clean", workers=big, timeout=3000),
+              Job("mq clean lat2 rdel2", "MQueueMC.tla",
+                  mq_consts(maxops=7, maxt=5, lat=2, rdel=2, maxr=2), MQ_INVS, "clean", workers=big, timeout=3000),
+              Job("mq clean maxr0 nodlq", "MQueueMC.tla",
+                  mq_consts(maxmsg=3, maxops=8, maxt=3, lat=1, rdel=1, maxr=0, dlq=False), MQ_INVS, "clean",
+                  workers=big, timeout=3000),
               Job("mq clean 3 consumers maxr3", "MQueueMC.tla",
                   mq_consts(nc=3, maxops=7, maxt=3, lat=1, rdel=1, maxr=3), MQ_INVS, "clean", workers=big,
                   timeout=3000)]
@@ -219,14 +224,9 @@ def judge_tlc(F: Family, chunks=1):
     fam = F.fam
     if not F.traces:
         return None
-    v0, r0 = validate(fam, F.traces, [], f"C19_trace_{fam}", chunks)
-    failing = [tid for tid, v in v0.items() if v[0].startswith("PROP:")]
-    devs = [d for d in open_devs() if d in DEV_CLAUSES[fam]]
-    v1, r1 = {}, []
-    if failing and devs:
-        sub = [F.traces[tid - 1] for tid in failing]
-        v1, r1 = validate(fam, sub, devs, f"C19_trace_{fam}_dev", chunks)
-    return v0, r0, v1, r1, devs, failing
+    devs = [d for d in open_devs() if d in MODEL_DEVS[fam]]      # the model of the code as it is
+    v0, r0 = validate(fam, F.traces, devs, f"C19_trace_{fam}", chunks)
+    return v0, r0, devs
 
 
 def judge(chk, F: Family, out):
@@ -234,32 +234,26 @@ def judge(chk, F: Family, out):
     fam = F.fam
     if out is None:
         return
-    v0, r0, v1, r1, devs, failing = out
+    v0, r0, devs = out
     for r in r0:
-        chk.add_tlc(f"{TRACE_MODULE[fam]} batch Dev={{}}", r, note="trace validation of real executions")
-    for r in r1:
-        chk.add_tlc(f"{TRACE_MODULE[fam]} batch Dev={devs}", r, count=False, note="known-finding classification")
-    matched = 0
+        chk.add_tlc(f"{TRACE_MODULE[fam]} batch Dev={devs}", r, note="trace validation of real executions")
+    conform = failing = 0
     for tid, v in sorted(v0.items()):
-        if v[0] == "ACCEPT":
-            matched += 1
+        if v[2] == "OK":
+            conform += 1
+        else:     # R3: the code left the implementation-shaped model; informational
+            chk.note_drift(f"{fam} trace {tid} ({F.meta[tid]['origin']}): {v[2]} at record {v[3]}")
+        if not v[0].startswith("PROP:"):
             continue
-        if v[0].startswith("MODEL:"):
-            chk.note_drift(f"{fam} trace {tid} ({F.meta[tid]['origin']}): {v[0]} at record {v[1]}")
-            continue
+        failing += 1
         clause = v[0][5:]
-        explained = False
-        if tid in v1:
-            w = v1[tid]
-            explained = (w[0] == v[0] and w[2] == "OK" and v[2] != "OK"
-                         and any(clause in DEV_CLAUSES[fam][d] for d in devs))
-        key = KNOWN_KEYS[fam] if explained else f"{fam}:{clause}"
-        chk.violation(key, f"{v[0]} at record {v[1]} of a {fam} execution (origin {F.meta[tid]['origin']}, "
-                           f"model conformance with Dev={{}}: {v[2]})",
+        key = SIGNATURE_KEYS.get((fam, clause), f"{fam}:{clause}")
+        chk.violation(key, f"{v[0]} at record {v[1]} of a {fam} execution (origin {F.meta[tid]['origin']}; "
+                           f"conformance with the model Dev={devs}: {v[2]})",
                       dict(F.meta[tid], verdict=list(v), trace=F.traces[tid - 1]))
     chk.extra[f"{fam}_traces"] = len(F.traces)
-    chk.extra[f"{fam}_traces_conforming"] = matched
-    chk.extra[f"{fam}_contract_failures"] = len(failing)
+    chk.extra[f"{fam}_traces_conforming_to_model"] = conform
+    chk.extra[f"{fam}_traces_with_false_clause"] = failing
 
 
 # ---------------------------------------------------------------------------
